@@ -314,6 +314,10 @@ func runFaultJob(c *Ctl, job *Job, idx int, res *RunResult) {
 		reseed(0x13000001, world)
 		var what string
 		w, what = GenTimeoutWorld(c.Ch, variant, thorough)
+		for _, t := range w.Tasks {
+			// an interactive task (it gets the terminal's stdin) is bound by its timeout like any other
+			t.Interactive = c.Ch.Bool(1, 6, "interactive")
+		}
 		reseed(0x13000002, idx)
 		prof.Checks["C13"] = true
 		prof.WAdvance = 4
@@ -340,6 +344,9 @@ func runFaultJob(c *Ctl, job *Job, idx int, res *RunResult) {
 		}
 		prof.Checks["C12"] = true
 		res.WorldIdx = world
+		if w.NFaults == 2 && world%4 == 1 {
+			prof.OverlapCancels = true
+		}
 		if world%6 == 4 {
 			// the cancellation originates inside the run: a condition error in a nested pipeline
 			// that starts while other stages have commands in flight. The instant is the release
@@ -453,7 +460,7 @@ func runFaultJob(c *Ctl, job *Job, idx int, res *RunResult) {
 			// serialise the stages either)
 		} else {
 			gen := IntegGen{MaxTasks: 3, MaxCmd: 2, MaxVar: 2, MaxHook: 1, CondProb: 10, AllowProb: 30, FailProb: 15, HookFailPct: 10,
-				PipelinePct: 100, DurMax: 80, Names: "simple",
+				PipelinePct: 100, DurMax: 80, Names: "simple", InteractivePct: 15,
 				StageGen: SchedGenParams{MaxStages: 5, NestProb: 0, AllowProb: 30, CondProb: 0, MaxDepth: 0, NoTrueCondWithDeps: true}}
 			w = GenTaskWorld(c.Ch, gen)
 			if c.Ch.Bool(1, 2, "shared-context") {
@@ -525,7 +532,7 @@ func runFaultJob(c *Ctl, job *Job, idx int, res *RunResult) {
 	case "c08", "c06s", "c14", "c19", "c04i":
 		if (idx/3)%3 == 1 {
 			// a third of the worlds also preempt goroutines at function entries inside taskctl's code
-			prof.PreemptPct, prof.PreemptDepth = 12, 14
+			prof.PreemptPct, prof.PreemptDepth = 25, 14
 			if job.Profile == "c19" && w.Format == "cockpit" {
 				// the way from a task's start to the spinner's methods (which now take part in the
 				// simulation) is long: compile, open the output, create and start the spinner
